@@ -36,6 +36,9 @@ pub struct Case {
     pub out_file: bool,
     pub params_file: bool,
     pub invalid: Option<Invalid>,
+    /// the -o / -p target paths already exist (with longer, unrelated content) before the tool runs
+    #[serde(default)]
+    pub preexisting_files: bool,
 }
 
 static COUNTER: AtomicU64 = AtomicU64::new(0);
@@ -283,6 +286,14 @@ fn check_case(c: &Case, st: &mut Stats, dir: &Path) -> Result<(), Failure> {
     }
 
     // accepted command line
+    if c.preexisting_files {
+        // a re-run over existing (longer) files: what the tool writes must still be exactly its result
+        let junk = format!("{{\"stale\":\"{}\"}}", "x".repeat(200_000));
+        let _ = std::fs::write(&out_a, &junk);
+        let _ = std::fs::write(&params_p, &junk);
+        let _ = std::fs::write(&out_b, &junk);
+        st.class("target_files_pre_existing");
+    }
     let mut args = mk(&base_args(c));
     if c.out_file {
         args.push(format!("--output-file-path={}", out_a.display()));
@@ -402,13 +413,13 @@ impl Prop for C19 {
                 .prop_map(move |text| Some(Invalid::ParamFile { which: w, text }))
             }),
         ];
-        (0u8..9, site, any::<bool>(), gen::date(), len, any::<bool>(), any::<bool>(), invalid)
-            .prop_map(|(method, site, pass_elevation, start, len, out_file, params_file, invalid)| {
+        (0u8..9, site, any::<bool>(), gen::date(), len, any::<bool>(), any::<bool>(), invalid, any::<bool>())
+            .prop_map(|(method, site, pass_elevation, start, len, out_file, params_file, invalid, preexisting_files)| {
                 let start = start.min(gen::date_hi() - chrono::Duration::days(400));
                 // the default nearest-good-day policy costs up to ~40 ms per day beyond the polar circles: keep
                 // long ranges to moderate latitudes (both dimensions are still covered, not their product)
                 let len = if site.lat.0.abs() > 64.0 { len.min(4) } else if site.lat.0.abs() > 50.0 { len.min(30) } else { len };
-                Case { method, site, pass_elevation, start, len, out_file, params_file, invalid }
+                Case { method, site, pass_elevation, start, len, out_file, params_file, invalid, preexisting_files }
             })
             .boxed()
     }
